@@ -26,6 +26,9 @@ def run(ctx):
     youtube_model(ctx, "R6")
     facebook_model(ctx, "R7")
     google_model(ctx, "R8")
+    # every parser reads its route through utils.pathsplit
+    from .c20 import pathsplit
+    pathsplit(ctx, "R9")
 
 
 def public_functions(mod):
